@@ -73,7 +73,7 @@ func c02eval(text string, o c02opts) (fs []docFinding, harness string, class str
 		return nil, "", "unparsable" // not a well-formed document: outside the property (C13's domain)
 	}
 	if o.interpolate {
-		env := verifexport.NewEnv(true, map[string]string{"HOME": "/home/bk", "C": "cee", "X": "ex"})
+		env := verifexport.NewEnv(true, map[string]string{"HOME": "/home/bk", "C": "cee", "X": "ex", "FIELD": "label", "FIELD2": "key"})
 		if err := p.Interpolate(env, false); err != nil {
 			return nil, "", "interpolation-error"
 		}
@@ -134,7 +134,11 @@ func c02eval(text string, o c02opts) (fs []docFinding, harness string, class str
 		})
 	}
 	if yamlOK {
-		ys, yerr := yaml.Marshal(p)
+		var ys []byte
+		var yerr error
+		if pan := report.Catch(func() { ys, yerr = yaml.Marshal(p) }); pan != "" {
+			return []docFinding{{"marshal-yaml-panic", pan}}, "", ""
+		}
 		if yerr != nil {
 			return []docFinding{{"marshal-yaml", yerr.Error()}}, "", ""
 		}
@@ -298,6 +302,16 @@ func c02run(w *report.W) {
 			for _, kind := range []string{"EdDSA", "ES512"} {
 				c02record(w, "scale", doc.Descr+" ["+pres+"]", text, c02opts{keyKind: kind, yamlLeg: true}, 80+len(text)/400)
 			}
+		}
+	}
+	// (1d) attribute names built by expansion (interpolated before signing); two of them expand to the names of typed step fields
+	for i, text := range []string{
+		"steps:\n  - command: c\n    \"attr_${X}\": templated\n    agents: {\"q_${C}\": \"$X\"}\n",
+		"steps:\n  - command: c\n    label: real\n    \"${FIELD}\": templated\n",
+		"steps:\n  - group: g\n    \"${FIELD2}\": templated\n    steps:\n      - command: c\n        \"${FIELD}\": l2\n",
+	} {
+		if w.Take(fmt.Sprintf("templated-names|%d", i)) {
+			c02record(w, "templated-names", fmt.Sprintf("templated attribute names #%d", i), text, c02opts{keyKind: "EdDSA", interpolate: true, yamlLeg: true}, 30)
 		}
 	}
 	// (2) all key kinds, with and without interpolation, on the <=1-deviation slice (no focus)
